@@ -153,3 +153,25 @@ pub open spec fn null_run_ok(v: RView, k: nat) -> bool
         null_run_ok(v, (k - 1) as nat) && 0 <= q && v.leb_ok(q) && v.uleb(q) == 0
     }
 }
+
+// ---- the abbreviation table as a sequence of declarations (DWARF 5 section 7.5.3)
+/// encoded size of the declaration starting at offset p: code, tag, children byte, attribute specifications incl. terminator
+pub open spec fn decl_size(v: RView, p: int) -> int {
+    let p1 = p + v.leb_len(p);
+    let p2 = p1 + v.leb_len(p1);
+    (p2 + 1 - p) + aspecs_size(v, p2 + 1)
+}
+/// offset of the i-th declaration of the table that starts at the read position
+pub open spec fn decl_start(v: RView, i: nat) -> int
+    decreases i
+{
+    if i == 0 { 0 } else { decl_start(v, (i - 1) as nat) + decl_size(v, decl_start(v, (i - 1) as nat)) }
+}
+pub open spec fn decl_code(v: RView, i: nat) -> nat { v.uleb(decl_start(v, i)) }
+pub open spec fn decl_tag(v: RView, i: nat) -> nat { let p = decl_start(v, i); v.uleb(p + v.leb_len(p)) }
+pub open spec fn decl_children(v: RView, i: nat) -> u8 { let p = decl_start(v, i); let p1 = p + v.leb_len(p); v.at(p1 + v.leb_len(p1)) }
+pub open spec fn decl_specs(v: RView, i: nat) -> Seq<ASpec> { let p = decl_start(v, i); let p1 = p + v.leb_len(p); aspecs(v, p1 + v.leb_len(p1) + 1) }
+/// the table ends after n declarations: end of input, or a null declaration (code 0)
+pub open spec fn table_ends(v: RView, n: nat) -> bool {
+    decl_start(v, n) == v.len || (0 <= decl_start(v, n) < v.len && decl_code(v, n) == 0)
+}
